@@ -164,6 +164,22 @@ def linked_parameters_keep_their_flags_on_the_instance(ctx):
     c09.copy_keeps_every_declared_property(ctx)
 
 
+def _handover_unit(m):
+    """(function, expression naming the new controller) where the take-over is carried out: HasOutputModule.activate_control
+    itself, or the method of the output (HasControlledBy) it hands its own name to"""
+    ac = m.method('frappy.mixins.HasOutputModule', 'activate_control', inherited=False)
+    if _deactivations(ac) or any(t.attr == 'controlled_by' for t, v, s in attr_stores(ac.node)):
+        return ac, 'self.name'
+    out_cls = m.classes.get('frappy.mixins.HasControlledBy')
+    for c in calls_in(ac.node):
+        if isinstance(c.func, ast.Attribute) and not dotted(c.func.value) == 'self' and out_cls is not None and c.func.attr in out_cls.methods \
+                and c.args and src(c.args[0]) == 'self.name':
+            h = out_cls.methods[c.func.attr]
+            if any(t.attr == 'controlled_by' for t, v, s in attr_stores(h.node)) and len(h.node.args.args) > 1:
+                return h, h.node.args.args[1].arg
+    return ac, 'self.name'
+
+
 def _deactivations(fi):
     """calls of a deactivation callback: a local taken out of self.inputCallbacks (loop over .values(), .get(...))"""
     return [c for c in calls_in(fi.node) if isinstance(c.func, ast.Name) and
@@ -227,14 +243,15 @@ def handover_pairing(ctx):
              for c in calls_in(im.node))
     ctx.check(ok, f'{im.qualname}:input registers at its output', im.node, 'output_module.register_input(self.name, self.deactivate_control)',
               'an input module does not register itself (name + deactivate callback) at the output module', im)
-    ac = m.method('frappy.mixins.HasOutputModule', 'activate_control', inherited=False)
-    # on every path to the deactivation call the fact `name != self.name` holds: the call lies on the true side of a `!=`
-    # test or on the false side of an `==` test (either polarity, early continue included)
+    ac, me = _handover_unit(m)
+    ctx.analysed(ac)
+    # on every path to the deactivation call the fact `name != <the new controller>` holds: the call lies on the true side of a
+    # `!=` test or on the false side of an `==` test (either polarity, early continue included)
     cfga = CFG(ac.node, m, ac.module)
-    dcalls = [i for c in calls_in(ac.node) if isinstance(c.func, ast.Name) and 'deactivate' in c.func.id for i in cfga.node_of(c)]
+    dcalls = [i for c in _deactivations(ac) for i in cfga.node_of(c)]
     skip_self = False
     for t in cfga.nodes:
-        if t.kind != 'test' or not isinstance(t.ast, ast.Compare) or len(t.ast.ops) != 1 or 'self.name' not in src(t.ast):
+        if t.kind != 'test' or not isinstance(t.ast, ast.Compare) or len(t.ast.ops) != 1 or me not in (src(t.ast.left), src(t.ast.comparators[0])):
             continue
         on_t = cfga.reach([t.id], labels={'T'}, avoid=[t.id])
         on_f = cfga.reach([t.id], labels={'F'}, avoid=[t.id])
@@ -271,7 +288,7 @@ def struct_member_write_returns_the_struct_view(ctx):
                       'clamps or rounds, the member parameter disagrees with the struct parameter', wf)
 
 
-@rule('C18.R6', min_instances=2)
+@rule('C18.R6', min_instances=1)
 def member_update_suppression_is_always_lifted(ctx):
     """StructParam (separate member read/write layout): the counter that suppresses the member -> struct callbacks while the
     struct is read / written as a whole (insideRW) is decremented on EVERY exit that follows an increment, exceptional ones
@@ -363,8 +380,10 @@ def hand_over_switches_both_sides(ctx):
     ids = [i for c in on for i in cfg.node_of(c)]
     ctx.check(bool(ids) and cfg.all_paths_pass([cfg.entry], [cfg.exit], ids, exc=False), f'{ac.qualname}:new controller is switched on', ac.node,
               'set_control_active(True) on every path', 'taking over control does not mark the new controller as active: the output names a module that says it is not controlling', ac)
-    deact = {i for c in calls_in(ac.node) if isinstance(c.func, ast.Name) and 'deactivate' in c.func.id for i in cfg.node_of(c)}
-    named = {i for tg, v, s in attr_stores(ac.node) if tg.attr == 'controlled_by' for i in cfg.node_of(s)}
+    hu, me = _handover_unit(m)
+    delegated = {i for c in calls_in(ac.node) if hu is not ac and call_attr(c) == hu.name for i in cfg.node_of(c)}
+    deact = {i for c in _deactivations(ac) for i in cfg.node_of(c)} | delegated
+    named = {i for tg, v, s in attr_stores(ac.node) if tg.attr == 'controlled_by' for i in cfg.node_of(s)} | delegated
     ctx.check(not ((deact | named) & cfg.reach(ids)), f'{ac.qualname}:the others are switched off before the new controller is marked active', ac.node,
               'set_control_active(True) comes last',
               'the new controller is marked active before the previous one is switched off and before the output names it: in between (and for good when a deactivation '
@@ -373,7 +392,14 @@ def hand_over_switches_both_sides(ctx):
         if t.kind == 'test' and src(t.ast).replace('not ', '') in ('out', 'self.output_module'):
             neg = src(t.ast).startswith('not ')
             side = cfg.reach([t.id], labels={'F' if neg else 'T'}, avoid=[t.id])
-            stores = {i for tg, v, s in attr_stores(ac.node) if tg.attr == 'controlled_by' for i in cfg.node_of(s)}
+            stores = {i for tg, v, s in attr_stores(ac.node) if tg.attr == 'controlled_by' for i in cfg.node_of(s)} | delegated
+            if delegated:
+                ctx.analysed(hu)
+                hstores = [s2 for tg, v, s2 in attr_stores(hu.node) if tg.attr == 'controlled_by' and v is not None and src(v) == me]
+                hcfg = CFG(hu.node, m, hu.module)
+                ctx.check(bool(hstores) and hcfg.all_paths_pass([hcfg.entry], [hcfg.exit], [i for s2 in hstores for i in hcfg.node_of(s2)], exc=False),
+                          f'{hu.qualname}:records the new controller', hu.node, f'self.controlled_by = {me} on every path',
+                          f'{hu.name} does not record the module that takes over in controlled_by on every path', hu)
             ctx.check(bool(stores) and stores <= side, f'{ac.qualname}:output is told who controls it', t.ast, 'out.controlled_by = self.name on the side with an output module',
                       f'`{src(t.ast)}`: controlled_by is stored only when there is NO output module (AttributeError on None)', ac)
     dc = m.method('frappy.mixins.HasOutputModule', 'deactivate_control', inherited=False)
